@@ -286,6 +286,9 @@ class Schedule:  # 0404
 
         await self.tcs._obtain_lock(self.idx)  # maybe raise TimeOutError
 
+        # a schedule eavesdropped while waiting for the lock may predate the version
+        self._full_schedule = {}  # about to be read: only what is fetched now counts
+
         try:  # always release the lock: a send may fail, the caller may time out
             if not did_io:  # must know the version of the schedule about to be RQ'd
                 self._global_ver, _ = await self.tcs._schedule_version(force_io=True)
